@@ -143,6 +143,9 @@ variable {F : Type} (o : FloatOps F)
 /-- `Rate.hitsPerNs()` on generic floats. -/
 def hitsPerNs (freq per : Int) : F := o.div (o.ofInt64 freq) (o.ofInt64 per)
 
+/-- `ConstantPacer.Rate()` on generic floats: `cp.hitsPerNs() * 1e9` (hits per second). -/
+def constRateOn (freq per : Int) : F := o.mul (hitsPerNs o freq per) o.e9
+
 /-- `time.Duration.Seconds()`: `float64(d/Second) + float64(d%Second)/1e9`. -/
 def seconds (d : Int) : F :=
   o.add (o.ofInt64 (d.tdiv 1000000000)) (o.div (o.ofInt64 (d.tmod 1000000000)) o.e9)
